@@ -98,6 +98,10 @@ func (matrix *Matrix) DeepCopy() *Matrix {
 	if matrix == nil {
 		return nil
 	}
+	// an empty "matrix: {}" leaves the ordered map unset
+	if matrix.om == nil {
+		return &Matrix{}
+	}
 	return &Matrix{
 		om: deepcopy.OrderedMap(matrix.om),
 	}
